@@ -43,7 +43,7 @@ pub struct Ledger {
 struct LedgerInner {
     /// per payload value: number of times its destructor ran
     drops:   std::collections::BTreeMap<u64, u32>,
-    /// destructor ran on something whose canary was broken
+    /// destructor ran on something that is not an intact payload (garbage / never-written slot / already destroyed)
     corrupt: u32,
     /// order of destruction (value)
     order:   Vec<u64>,
@@ -53,7 +53,7 @@ impl Ledger {
     pub fn new() -> Arc<Self> { Arc::new(Self::default()) }
     fn note(&self, val: u64, ok: bool) {
         let mut g = self.inner.lock().unwrap();
-        if !ok { g.corrupt += 1; }
+        if !ok { g.corrupt += 1; return; }
         *g.drops.entry(val).or_insert(0) += 1;
         g.order.push(val);
     }
@@ -63,34 +63,41 @@ impl Ledger {
     pub fn total(&self) -> u32 { self.inner.lock().unwrap().drops.values().sum() }
 }
 
-const CANARY: u64 = 0xC0FF_EE00_DEAD_BEA7;
+thread_local! {
+    /// the ledger destructors running on this thread report to (set by the harness on every thread that belongs to a case)
+    static CURRENT: std::cell::RefCell<Option<Arc<Ledger>>> = const { std::cell::RefCell::new(None) };
+}
 
-/// Payload with a destructor that reports to a [Ledger]. `Tracked::default()` is an inert sentinel
-/// (the rings pre-fill their `ManuallyDrop` slots with defaults).
+pub fn set_current_ledger(l: Option<Arc<Ledger>>) { let _ = CURRENT.try_with(|c| *c.borrow_mut() = l); }
+
+const CANARY: u64 = 0xC0FF_EE00_DEAD_BEA7;
+const DEAD:   u64 = 0xDEAD_DEAD_DEAD_DEAD;
+
+/// Payload with a destructor that reports to the calling thread's current [Ledger]. It holds no pointer, so
+/// running the destructor on garbage (a never-written pool slot, a slot destroyed twice) is harmless for the
+/// harness and is *recorded* instead of crashing. `Tracked::default()` is an inert sentinel (the rings pre-fill
+/// their `ManuallyDrop` slots with defaults).
 #[derive(Debug)]
 pub struct Tracked {
     pub val: u64,
     canary:  u64,
-    ledger:  Option<Arc<Ledger>>,
 }
 
 impl Tracked {
-    pub fn new(val: u64, ledger: &Arc<Ledger>) -> Self {
-        Tracked { val, canary: CANARY ^ val, ledger: Some(Arc::clone(ledger)) }
-    }
+    pub fn new(val: u64) -> Self { Tracked { val, canary: CANARY ^ val } }
     pub fn intact(&self) -> bool { self.canary == CANARY ^ self.val && decode(self.val).is_some() }
 }
 
 impl Default for Tracked {
-    fn default() -> Self { Tracked { val: 0, canary: 0, ledger: None } }
+    fn default() -> Self { Tracked { val: 0, canary: 0 } }
 }
 
 impl Drop for Tracked {
     fn drop(&mut self) {
-        if let Some(ledger) = self.ledger.take() {
-            let ok = self.canary == CANARY ^ self.val;
-            ledger.note(self.val, ok);
-            self.canary = 0xDEAD_DEAD_DEAD_DEAD;
-        }
+        if self.val == 0 && self.canary == 0 { return; }      // inert sentinel
+        let ok = self.intact();
+        let val = self.val;
+        let _ = CURRENT.try_with(|c| if let Some(l) = c.borrow().as_ref() { l.note(val, ok); });
+        self.canary = DEAD;
     }
 }
